@@ -796,9 +796,11 @@ end PgFdr.C18
 /-! ## The command line as a whole
 
 `PgFdr.Cli.cliRun` (`Model/Cli.lean`) composes the stage models exactly as `run_picked_group_fdr` / `run_method` /
-`writers.finalize_output` do: annotations (C19) → method list (this file's `parseAll`) → one peptide → protein map per
-digestion parameter set if some method needs one (C09) → per method: evidence files of its input type, ingestion with
-the matching map (C10), `Pipeline.run` with the thresholds of the command line, the minimal writer (C13, C19 columns).
+`writers.finalize_output` do: annotations (C19; empty without `--fasta`) → method list (this file's `parseAll`) → if some
+method needs one, the peptide → protein maps: one per digestion parameter set from `--fasta`, or one per
+`--peptide_protein_map` file when `--fasta` is absent (C09) → per method: evidence files of its input type — MaxQuant,
+Percolator (native or mokapot header, per file), FragPipe, Sage, DIA-NN — ingestion with the matching map (C10),
+`Pipeline.run` with the thresholds of the command line, the minimal writer (C13, C19 columns).
 It is tied to the real `main(argv)` by the correspondence of `harness/cli_model.py`. -/
 namespace PgFdr.C18
 open PgFdr.Cli
@@ -809,7 +811,8 @@ open PgFdr.Generated (MethodToml)
     line that completes, every written table belongs to a method given in `--methods` (position `i`), which is a
     shipped method whose TOML parses (under the run's pseudo-gene decision) to `cfg`, whose input was given, and whose
     pipeline configuration is `pc`; the table's peptide list is that method's evidence ingested through the run's
-    peptide → protein maps (the maps of `--fasta` and the digestion flags if the method needs one) and is a dict; its
+    peptide → protein maps (the maps of `--fasta` and the digestion flags, or of the `--peptide_protein_map` files, if
+    the method needs one) and is a dict; its
     rows are the rows of `Pipeline.run pc` on that list with the thresholds of the command line and the method's own
     recorded parameters; the written records are the header line and, per row, the nine base cells and the three
     annotation cells rendered from the run's annotations; hence all six end-to-end guarantees
@@ -826,7 +829,7 @@ theorem cli_tables_satisfy_guarantees (inp : CliInput) (ts : List CliTable) (h :
         runMethod (supplied inp) cfg = .ok () ∧
         toPipelineConfig cfg = some pc ∧
         (cfg.needsMap = true →
-          pepMaps inp.fasta inp.containsDecoys inp.geneLevel inp.useUniprot inp.dig usePseudo = .ok maps) ∧
+          pepMaps inp.fasta inp.pepMapFiles inp.containsDecoys inp.geneLevel inp.useUniprot inp.dig usePseudo = .ok maps) ∧
         t.pil = ingest inp maps cfg ∧ Pipeline.distinctPeptides t.pil ∧
         Pipeline.run pc (pipelineInput inp t.pil (inp.recs.getD i default)) = .ok r ∧
         t.run = r ∧ t.rows = r.rows ∧
@@ -1063,5 +1066,255 @@ example : ∃ t1 t2, cliRun demoRun = .ok [t1, t2] ∧ t1.file = "out_savitski.t
     t2.run.pass2.isSome = true ∧ demoRun.methods.length = 2 := by
   obtain ⟨t1, t2, h, -, h1, -, -, h2, -, -, h3, -, h4⟩ := demo_cli_run
   exact ⟨t1, t2, h, h1, h2, h3, h4, rfl⟩
+
+/-! ## Every shipped method, on input of its own type
+
+The decision model's `matching` supply (this file, `shipped_methods_supported`: "its own evidence type and a FASTA
+file") carried over to the composed model: for each of the shipped methods there is ONE evidence flag — `--mq_evidence`,
+`--perc_evidence` (native or mokapot files), `--fragpipe_psm`, `--sage_results` or `--diann_reports` — such that every
+command line naming the method and giving files under that flag gets through every configuration check; what is left
+are the failures of the data (a FASTA / map file the readers refuse, a peptide list without a ranked group, …). -/
+
+/-- Bool form of the per-method obligation, so that the kernel can evaluate it over the generated table: the TOML file
+    parses protein-level and with the pseudo-gene fall-back, both configurations read the same evidence flag, and
+    the decision model writes a table on the matching supply -/
+def cliReady (g : Bool) (m : MethodToml) : Bool :=
+  match parseMethod g m, parseMethod false m with
+  | .ok c, .ok c0 =>
+    (match runMethod (matching c) c with
+     | .ok _ => true
+     | .error _ => false) && c.input == c0.input
+  | _, _ => false
+
+/-- the generated-table obligation, evaluated by the kernel on the current TOML files -/
+theorem cli_ready_table : ∀ g : Bool, ∀ m ∈ Generated.methods, cliReady g m = true := by decide +kernel
+
+/-- the evidence flag a shipped method reads (`ScoreOrigin.get_evidence_file` of its parsed score type) -/
+def kindOf (m : MethodToml) : Input :=
+  match parseMethod false m with
+  | .ok c => c.input
+  | .error _ => .mq
+
+/-- "For every method configuration shipped with the tool and selectable by name, running it from the command line on
+    valid input of the matching type completes and writes a protein-group table …": for every shipped method `m` there
+    is an input kind (namely `kindOf m`, the flag its parsed score type reads) such that EVERY command line that names `m` alone, gives `--protein_groups_out` and
+    supplies files of that kind — whatever else it supplies, with `--fasta`, with `--peptide_protein_map` files or
+    with neither — is not refused for a reason of configuration:
+
+    * whatever the annotations of its FASTA files are (`ann`, and the pseudo-gene decision `usePseudo`), the method's
+      TOML parses under that decision to a configuration `cfg` reading that kind; the decision model writes a table
+      both on its `matching` supply and on what this command line supplies; `cfg` has a pipeline configuration `pc`
+      (with all six end-to-end guarantees);
+    * if the method needs the peptide → protein maps and building them fails, the run ends with exactly that error,
+      and with `--fasta` or `--peptide_protein_map` given that error is never the missing-map refusal;
+    * otherwise the run IS the method's inference call: it ends with the error of
+      `Pipeline.run pc` on the evidence ingested through those maps (thresholds of the command line, the method's
+      recorded parameters) if that call fails — errors of the data such as `no_ranked_groups` — and else writes
+      exactly one table, to the path given, holding the call's rows under the minimal writer's header.
+
+    So the only ways such a run does not write its table are: the FASTA files are refused by the annotation reader
+    (no `ann`), the map cannot be built from the files given, or the inference call fails on the data. -/
+theorem cli_every_shipped_method_runs :
+    ∀ m ∈ Generated.methods, ∃ kind : Input, kind = kindOf m ∧
+      ∀ (inp : CliInput) (op : OutPath) (ann : C19.Dict) (usePseudo : Bool),
+        inp.methods = [m.name] → inp.out = some op → (supplied inp).has kind = true →
+        C19.getAnnotations inp.fasta inp.containsDecoys inp.geneLevel inp.useUniprot = .ok (ann, usePseudo) →
+        ∃ (cfg : Cfg) (pc : Pipeline.Config),
+          parseMethod usePseudo m = .ok cfg ∧ cfg.input = kind ∧
+          runMethod (matching cfg) cfg = .ok () ∧ runMethod (supplied inp) cfg = .ok () ∧
+          toPipelineConfig cfg = some pc ∧ PipelineGuarantees pc ∧
+          (cfg.needsMap = true → ∀ e,
+            pepMaps inp.fasta inp.pepMapFiles inp.containsDecoys inp.geneLevel inp.useUniprot inp.dig usePseudo = .error e →
+            cliRun inp = .error e ∧ ((supplied inp).map = true → e ≠ Err.missingFasta.tag)) ∧
+          ∀ maps : List C10.DMap,
+            (cfg.needsMap = true →
+              pepMaps inp.fasta inp.pepMapFiles inp.containsDecoys inp.geneLevel inp.useUniprot inp.dig usePseudo = .ok maps) →
+            (∀ e, Pipeline.run pc (pipelineInput inp (ingest inp maps cfg) (inp.recs.getD 0 default)) = .error e →
+              cliRun inp = .error e) ∧
+            (∀ r, Pipeline.run pc (pipelineInput inp (ingest inp maps cfg) (inp.recs.getD 0 default)) = .ok r →
+              cliRun inp = .ok [{ method := m.name, file := op.stem ++ op.suffix, dir := op.dir,
+                                  pil := ingest inp maps cfg, run := r, rows := r.rows,
+                                  records := tableHeader :: r.rows.map (fun d => (cliRow ann d).toList) }]) := by
+  intro m hm
+  refine ⟨kindOf m, rfl, ?_⟩
+  intro inp op ann u hmeth hout hhas ha
+  obtain ⟨cfg, pc, hp, hpc, -, -, -, G⟩ := shipped_methods_guarantees u m hm
+  obtain ⟨_, -, -, -, hfind, -⟩ := shipped_methods_supported m hm
+  -- the table entry: same evidence flag as protein-level, and a table on the matching supply
+  have hready := cli_ready_table u m hm
+  unfold cliReady at hready
+  rw [hp] at hready
+  cases hp0 : parseMethod false m with
+  | error e => rw [hp0] at hready; simp at hready
+  | ok c0 =>
+    rw [hp0] at hready
+    simp only [Bool.and_eq_true, beq_iff_eq] at hready
+    obtain ⟨hrm, hin⟩ := hready
+    have hkind : cfg.input = kindOf m := by unfold kindOf; rw [hp0]; exact hin
+    have hmatch : runMethod (matching cfg) cfg = .ok () := by
+      cases hr : runMethod (matching cfg) cfg with
+      | error e => rw [hr] at hrm; simp at hrm
+      | ok u => rfl
+    obtain ⟨-, h2, h3, h4⟩ := (runMethod_ok_iff _ _).mp hmatch
+    have hsup : runMethod (supplied inp) cfg = .ok () :=
+      (runMethod_ok_iff _ _).mpr ⟨hkind ▸ hhas, h2, fun hn => h3 hn, h4⟩
+    have hsetup := setup_single inp m.name ann u m cfg hmeth ha hfind hp
+    have hname : C18.outputName false op.stem op.suffix cfg = op.stem ++ op.suffix := by simp [outputName]
+    refine ⟨cfg, pc, hp, hkind, hmatch, hsup, hpc, G, ?_, ?_⟩
+    · intro hn e he
+      refine ⟨?_, fun hmap => pepMaps_error_ne_missing _ _ _ _ _ _ _ e hmap he⟩
+      apply cliRun_setup_error
+      rw [hsetup, hn]
+      simp only [if_true]
+      rw [he]
+    · intro maps hmaps
+      -- the environment of the run, and the method's ingestion in it
+      have henv : ∃ env : Env, setup inp = .ok (env, [cfg]) ∧ env.ann = ann ∧
+          ingest inp env.maps cfg = ingest inp maps cfg := by
+        cases hn : cfg.needsMap with
+        | true =>
+          refine ⟨{ ann := ann, usePseudo := u, maps := maps }, ?_, rfl, rfl⟩
+          rw [hsetup, hn]
+          simp only [if_true]
+          rw [hmaps hn]
+        | false =>
+          refine ⟨{ ann := ann, usePseudo := u, maps := [] }, ?_, rfl,
+            ingest_noremap inp _ _ cfg (needsMap_false_remaps cfg hn)⟩
+          rw [hsetup, hn]
+          simp
+      obtain ⟨env, hs, hann, hing⟩ := henv
+      have hout1 := cliOutcomes_single inp m.name env cfg hmeth hs
+      constructor
+      · intro e he
+        have hrun := runMethod_pipeline_error inp env false m.name cfg (inp.recs.getD 0 default) pc e hsup hpc
+          (by rw [hing]; exact he)
+        unfold cliRun
+        rw [hout1, hrun]
+      · intro r hr
+        have hrun := runMethod_ok inp env false m.name cfg (inp.recs.getD 0 default) pc r op hsup hpc
+          (by rw [hing]; exact hr) hout
+        unfold cliRun
+        rw [hout1, hrun]
+        simp [hing, hann, hname]
+
+/-! Non-vacuity of `cli_every_shipped_method_runs`: the shipped methods read all five evidence flags between them; two
+command lines of the newly composed kinds satisfy its hypotheses and complete with the table it names —
+`--methods diann --diann_reports report.tsv` without FASTA (the decoy row's protein gets the `REV__` prefix from its
+`Decoy` cell), and `--methods picked_protein_group --perc_evidence mokapot.psms.txt --peptide_protein_map map.tsv`
+(a mokapot-style Percolator file, proteins remapped through the map FILE).  Both ingest `Pipeline.demoPil`, so the
+inference call is `Pipeline.demo_run2`.  Sage and FragPipe rows are ingested with the parsers' double arithmetic. -/
+
+example : (Generated.methods.map kindOf).eraseDups.length = 5 ∧ Generated.methods.length = 27 := by decide +kernel
+
+private def demoOut : OutPath := { dir := "d", stem := "out", suffix := ".txt" }
+
+private def demoBase : CliInput :=
+  { fasta := none, containsDecoys := false, geneLevel := false, useUniprot := false, dig := {}, methods := [],
+    mq := none, perc := none, fragpipe := none, sage := none, diann := none, mokapot := false,
+    thr := 1/100, psm := 1/100, keepAll := false, out := some demoOut, recs := [demoRec2] }
+
+private def demoDiann : CliInput :=
+  { demoBase with
+    methods := ["diann"],
+    diann := some [[{ raw := { pep := "PEPA", mod := "", score := some (1/1000), prot := ["A"], decoy := false } },
+                    { raw := { pep := "PEP(UniMod:4)B", mod := "", score := some (1/100), prot := ["B"], decoy := true } }]] }
+
+private def demoMapRun : CliInput :=
+  { demoBase with
+    methods := ["picked_protein_group"], mokapotFiles := [true],
+    perc := some [[{ raw := { pep := "-.PEPA.-", mod := "", score := some (1/1000), prot := ["X\tY"], decoy := false } },
+                   { raw := { pep := "-.PEPB.-", mod := "", score := some (1/100), prot := ["X"], decoy := false } }]],
+    pepMapFiles := some ["PEPA\tA\r\nPEPB\tREV__B\r\n".toList] }
+
+private def demoMDiann : MethodToml :=
+  { name := "diann", label := some "Picked Protein Group FDR", scoreType := some "DIA-NN bestPEP",
+    grouping := some "rescued_subset", sharedPeptides := some "discard", pickedStrategy := some "picked_group" }
+
+private def demoMPpg : MethodToml :=
+  { name := "picked_protein_group", label := some "Picked Protein Group FDR", scoreType := some "Perc remap bestPEP",
+    grouping := some "rescued_subset", sharedPeptides := some "discard", pickedStrategy := some "picked_group" }
+
+private def demoCfgDiann : Cfg :=
+  { score := .bestPEP, origin := .diann, razor := false, withShared := false, grouping := .rescuedSubset,
+    picked := .pickedGroup, label := "Picked Protein Group FDR" }
+
+private def demoCfgPpg : Cfg := { demoCfgDiann with origin := .percRemap }
+
+example : ∃ t, cliRun demoDiann = .ok [t] ∧ t.file = "out.txt" ∧ t.dir = "d" ∧ t.pil = Pipeline.demoPil ∧
+    t.rows = Pipeline.demoRows (1/2) 1 ∧ kindOf demoMDiann = .diann ∧ (supplied demoDiann).map = false := by
+  have hm : demoMDiann ∈ Generated.methods := by decide +kernel
+  obtain ⟨kind, hk, H⟩ := cli_every_shipped_method_runs demoMDiann hm
+  have hkd : kindOf demoMDiann = .diann := by decide +kernel
+  rw [hkd] at hk
+  subst hk
+  obtain ⟨cfg, pc, hp, -, -, -, hpc, -, -, hrun⟩ := H demoDiann demoOut [] false rfl rfl (by decide +kernel) rfl
+  have hp' : parseMethod false demoMDiann = .ok demoCfgDiann := by decide +kernel
+  rw [hp'] at hp
+  cases hp
+  have hpc' : toPipelineConfig demoCfgDiann = some Pipeline.demoCfg2 := rfl
+  rw [hpc'] at hpc
+  cases hpc
+  have hpil : ingest demoDiann [] demoCfgDiann = Pipeline.demoPil := by decide +kernel
+  obtain ⟨r2, hr2, -, -, hrows2, -, -⟩ := Pipeline.demo_run2
+  obtain ⟨-, hok⟩ := hrun [] (by intro h; exact absurd h (by decide +kernel))
+  have := hok r2 (by rw [hpil]; exact hr2)
+  exact ⟨_, this, by show ("out" ++ ".txt" : String) = "out.txt"; decide +kernel, rfl, hpil, hrows2, hkd, by decide +kernel⟩
+
+example : ∃ t, cliRun demoMapRun = .ok [t] ∧ t.pil = Pipeline.demoPil ∧ t.rows = Pipeline.demoRows (1/2) 1 ∧
+    kindOf demoMPpg = .perc ∧ demoCfgPpg.needsMap = true ∧ (supplied demoMapRun).map = true := by
+  have hm : demoMPpg ∈ Generated.methods := by decide +kernel
+  obtain ⟨kind, hk, H⟩ := cli_every_shipped_method_runs demoMPpg hm
+  have hkd : kindOf demoMPpg = .perc := by decide +kernel
+  rw [hkd] at hk
+  subst hk
+  obtain ⟨cfg, pc, hp, -, -, -, hpc, -, -, hrun⟩ := H demoMapRun demoOut [] false rfl rfl (by decide +kernel) rfl
+  have hp' : parseMethod false demoMPpg = .ok demoCfgPpg := by decide +kernel
+  rw [hp'] at hp
+  cases hp
+  have hpc' : toPipelineConfig demoCfgPpg = some Pipeline.demoCfg2 := rfl
+  rw [hpc'] at hpc
+  cases hpc
+  have hmaps : pepMaps demoMapRun.fasta demoMapRun.pepMapFiles demoMapRun.containsDecoys demoMapRun.geneLevel
+      demoMapRun.useUniprot demoMapRun.dig false = .ok [[("PEPA", ["A"]), ("PEPB", ["REV__B"])]] := by decide +kernel
+  have hpil : ingest demoMapRun [[("PEPA", ["A"]), ("PEPB", ["REV__B"])]] demoCfgPpg = Pipeline.demoPil := by
+    decide +kernel
+  obtain ⟨r2, hr2, -, -, hrows2, -, -⟩ := Pipeline.demo_run2
+  obtain ⟨-, hok⟩ := hrun _ (fun _ => hmaps)
+  have := hok r2 (by rw [hpil]; exact hr2)
+  exact ⟨_, this, hpil, hrows2, hkd, by decide +kernel, by decide +kernel⟩
+
+/-- the same two PSMs as a Sage file (`posterior_error` holds log10 of the PEP; the peptide list holds the DOUBLES
+    `10 ** -3`, `10 ** -2`, as the code does — `Cli.roundD`) and a FragPipe PSM (`PeptideProphet Probability`;
+    PEP = `1 - p + 1e-16` in doubles, the protein list from `Protein` + `Mapped Proteins`, decoys purged) -/
+example : ingest { demoBase with
+      methods := ["sage"],
+      sage := some [[{ raw := { pep := "PEPA", mod := "", score := some (-3), prot := ["A"], decoy := false } },
+                     { raw := { pep := "PEPB", mod := "", score := some (-2), prot := ["REV__B"], decoy := false } }]] }
+    [] { demoCfgDiann with origin := .sage } =
+    [{ peptide := "PEPA", pep := 1152921504606847 / 1152921504606846976, proteins := ["A"] },
+     { peptide := "PEPB", pep := 5764607523034235 / 576460752303423488, proteins := ["REV__B"] }] := by decide +kernel
+
+example : Cli.doubleT.fragpipe (8998192055486251 / 9007199254740992) = 4611686018427853 / 4611686018427387904 ∧
+    Cli.roundD (1 / 1000) ≠ 1 / 1000 := by decide +kernel
+
+example : ingest { demoBase with
+      methods := ["fragpipe"],
+      fragpipe := some [[{ raw := { pep := "PEPA", mod := "PEP[147]A", score := some 1, prot := ["A", "REV__A2, C"], decoy := false } }]] }
+    [] { demoCfgDiann with origin := .fragpipe } = [{ peptide := "PEPA", pep := C10.eps16, proteins := ["A", "C"] }] := by
+  decide +kernel
+
+/-- without `--fasta` and without `--peptide_protein_map` the remapping method of the second run is refused with the
+    tool's missing-map error (`pepMaps_missing`) — the hypothesis "a map can be built" of the theorem is not for free -/
+example : cliRun { demoMapRun with pepMapFiles := none } = .error Err.missingFasta.tag := by
+  apply cliRun_setup_error
+  have hs := setup_single { demoMapRun with pepMapFiles := none } "picked_protein_group" [] false demoMPpg demoCfgPpg
+    rfl rfl (by decide +kernel) (by decide +kernel)
+  rw [hs]
+  have hn : demoCfgPpg.needsMap = true := by decide +kernel
+  rw [hn]
+  simp only [if_true]
+  have hm : pepMaps demoMapRun.fasta none demoMapRun.containsDecoys demoMapRun.geneLevel demoMapRun.useUniprot
+      demoMapRun.dig false = .error Err.missingFasta.tag := by decide +kernel
+  rw [hm]
 
 end PgFdr.C18
